@@ -87,6 +87,17 @@ func (t *XTemp) UnmarshalText(b []byte) error {
 }
 
 // XBlob is a document that is one long run of character data.
+// XProblem is an encodable document whose type also has the methods of error
+// and fmt.Stringer (an API problem / validation document).
+type XProblem struct {
+	Status int      `json:"status"`
+	Title  string   `json:"title"`
+	Fields []string `json:"fields,omitempty"`
+}
+
+func (p XProblem) Error() string  { return "problem: " + p.Title }
+func (p XProblem) String() string { return "XProblem(" + p.Title + ")" }
+
 type XBlob struct {
 	XMLName xml.Name `xml:"blob"`
 	Data    []byte   `xml:",chardata"`
@@ -175,6 +186,14 @@ func (c Case) value() interface{} {
 			return namedBytes(c.raw())
 		case "rawmessage":
 			return json.RawMessage(`{"k": [1, 2, {"<a>": "b"}], "t":true}`)
+		case "problem":
+			// a document type that is an error (and a Stringer) as well: encodable
+			// like any struct with exported fields
+			return &XProblem{Status: 422, Title: c.raw(), Fields: []string{"a", c.raw()}}
+		case "problemvalue":
+			return XProblem{Status: 409, Title: c.raw()}
+		case "problems":
+			return []error{XProblem{Status: 1, Title: c.raw()}, &XProblem{Status: 2}}
 		}
 		return []byte(c.raw())
 	case "jsonstruct", "xml":
@@ -712,7 +731,7 @@ func genCase(t *rapid.T) Case {
 		c.JSON = raw
 		c.Unenc = rapid.IntRange(0, 3).Draw(t, "unenc") == 0
 	case "jsonbytes":
-		c.Empty = []string{"bytes", "named", "rawmessage"}[rapid.IntRange(0, 2).Draw(t, "jbk")]
+		c.Empty = []string{"bytes", "named", "rawmessage", "problem", "problemvalue", "problems"}[rapid.IntRange(0, 5).Draw(t, "jbk")]
 		c.Bytes = strconv.QuoteToASCII(string(rapid.SliceOfN(rapid.Byte(), 1, 24).Draw(t, "jbytes")))
 	case "xmlblob":
 		n := []int{10, 4000, 33000, 40000, 70000, 100000}[rapid.IntRange(0, 5).Draw(t, "blobsize")]
